@@ -42,6 +42,10 @@ func exploreE2(c *Ctx, sys E2Sys, depth int, sitePrefix string) {
 			{
 				inst := sys.New()
 				report := func(site, shape, detail string) {
+					if site == "__class" {
+						u.Class(shape)
+						return
+					}
 					u.Violation(sitePrefix+site, shape, fmt.Sprintf("history %s: %s", histStr(sys, hist{first}), detail))
 				}
 				if inst.Apply(first, true, report) {
@@ -72,6 +76,10 @@ func exploreE2(c *Ctx, sys E2Sys, depth int, sitePrefix string) {
 						}
 						h2 := append(append(hist(nil), h...), op)
 						report := func(site, shape, detail string) {
+							if site == "__class" {
+								u.Class(shape)
+								return
+							}
 							u.Violation(sitePrefix+site, shape, fmt.Sprintf("history %s: %s", histStr(sys, h2), detail))
 						}
 						if !inst.Apply(op, true, report) {
